@@ -85,3 +85,8 @@ def partial_trace_consistency(inp):
                 if dev > 1e-7:
                     bad.append({'order': order, 'sites': s, 'traced_site': s[pos], 'deviation_from_rho_of_remaining_sites': dev})
     return {'violates': bool(bad), 'detail': bad[:12]}
+
+
+def query_between_steps(inp):
+    from replay.c14 import tebd_query_between_computes
+    return tebd_query_between_computes(inp)
